@@ -1,9 +1,9 @@
 /* relay_harness.c -- in-process, single-threaded driver of the REAL output relay of pdsh
  * (engine `relay`, properties C05/C06).
  *
- * The translation unit #includes the unmodified src/pdsh/dsh.c and src/common/err.c and src/pdsh/cbuf.c and
- * is linked with the real xmalloc.c, xstring.c, fd.c (all taken from the tree under test on
- * every run).  It drives dsh.c's static functions
+ * The translation unit #includes the unmodified src/pdsh/dsh.c, src/common/err.c and
+ * src/pdsh/cbuf.c and is linked with the real xmalloc.c, xstring.c, fd.c (all taken from the
+ * tree under test on every run).  It drives dsh.c's static functions
  *     _thd_init, _handle_rcmd_stdout/_handle_rcmd_stderr (-> _do_output -> _flush_lines ->
  *     _extract_rc), _flush_output
  * over non-blocking pipes into which it writes the scripted chunks between the calls, one
